@@ -9,6 +9,7 @@
 //	tb  GetNow, process dies inside Delete before the file is removed (then restart)
 //	ta  GetNow, process dies inside Delete after the file is removed (then restart)
 //	r   restart (new pool over the same storage)   rf  restart, ReadAll fails
+//	gt  generate, process dies inside Save leaving an empty file (ppool family, see ppool.go)
 //
 // Obs line: outs=<per-step result> counts=<ParametersCount after each step> disk=<ids on storage>
 //
@@ -29,6 +30,7 @@ import (
 	"go/token"
 	"os"
 	"path/filepath"
+	"strconv"
 	"strings"
 	"sync"
 	"time"
@@ -68,6 +70,8 @@ func (s *store) Save(p *param) (*persisted, error) {
 	case "failwrote":
 		s.put(id, p.V)
 		err = fmt.Errorf("injected save failure after write")
+	case "crashtorn":
+		err = fmt.Errorf("process died")
 	default:
 		s.put(id, p.V)
 	}
@@ -137,11 +141,34 @@ func (s *store) ReadAll() ([]*persisted, error) {
 	return out, nil
 }
 
-func (s *store) has(id string) bool {
+func (s *store) Persistence() generator.Persistence[param] { return s }
+func (s *store) Make(v int) *param                          { return &param{V: v} }
+func (s *store) Val(p *param) string                        { return strconv.Itoa(p.V) }
+func (s *store) SetSave(m string)                           { s.mu.Lock(); s.saveMode = m; s.mu.Unlock() }
+func (s *store) SetDel(m string)                            { s.mu.Lock(); s.delMode = m; s.mu.Unlock() }
+func (s *store) SetReadFail(b bool)                         { s.mu.Lock(); s.readFail = b; s.mu.Unlock() }
+func (s *store) ResetFaults() {
+	s.mu.Lock()
+	s.saveMode, s.delMode, s.readFail, s.crashed = "", "", false, false
+	s.mu.Unlock()
+}
+func (s *store) Crashed() bool         { s.mu.Lock(); defer s.mu.Unlock(); return s.crashed }
+func (s *store) Saved() chan struct{}  { return s.saved }
+func (s *store) BeforeRestart()        {}
+func (s *store) Has(v int) bool {
 	s.mu.Lock()
 	defer s.mu.Unlock()
-	_, ok := s.data[id]
+	_, ok := s.data[fmt.Sprintf("id%d", v)]
 	return ok
+}
+func (s *store) Disk() []int {
+	s.mu.Lock()
+	defer s.mu.Unlock()
+	var disk []int
+	for _, id := range s.files {
+		disk = append(disk, s.data[id])
+	}
+	return disk
 }
 
 // ---- one pool instance (= one process lifetime) ------------------------------
@@ -151,11 +178,29 @@ type genCmd struct {
 	isNil bool
 }
 
-type instance struct {
+type instance[T any] struct {
 	sched *generator.Scheduler
-	pool  *generator.ParameterPool[param]
+	pool  *generator.ParameterPool[T]
 	ready chan struct{}
 	cmd   chan genCmd
+	mk    func(v int) *T
+}
+
+// backend is the storage side of a pool case: the Persistence the pool talks to plus the
+// fault controls and observations the harness needs.
+type backend[T any] interface {
+	Persistence() generator.Persistence[T]
+	Make(v int) *T  // the parameter generated for id v
+	Val(p *T) string // id of a served parameter (with `?` when its content is not what was generated)
+	SetSave(mode string)
+	SetDel(mode string)
+	SetReadFail(b bool)
+	ResetFaults()
+	Crashed() bool
+	Saved() chan struct{}
+	Has(v int) bool
+	Disk() []int
+	BeforeRestart()
 }
 
 var quietLogger = func() logging.StandardLogger {
@@ -164,13 +209,13 @@ var quietLogger = func() logging.StandardLogger {
 	return l
 }()
 
-func newInstance(st *store, size int) *instance {
-	in := &instance{sched: &generator.Scheduler{}, ready: make(chan struct{}), cmd: make(chan genCmd)}
-	in.pool = generator.NewParameterPool[param](quietLogger, in.sched, st, size, in.generate, 0)
+func newInstance[T any](b backend[T], size int) *instance[T] {
+	in := &instance[T]{sched: &generator.Scheduler{}, ready: make(chan struct{}), cmd: make(chan genCmd), mk: b.Make}
+	in.pool = generator.NewParameterPool[T](quietLogger, in.sched, b.Persistence(), size, in.generate, 0)
 	return in
 }
 
-func (in *instance) generate(ctx context.Context) *param {
+func (in *instance[T]) generate(ctx context.Context) *T {
 	select {
 	case in.ready <- struct{}{}: // the harness learns that the previous iteration is over
 	case <-ctx.Done():
@@ -181,7 +226,7 @@ func (in *instance) generate(ctx context.Context) *param {
 		if c.isNil {
 			return nil
 		}
-		return &param{V: c.v}
+		return in.mk(c.v)
 	case <-ctx.Done():
 		return nil
 	}
@@ -200,9 +245,11 @@ const long = 15 * time.Second
 const blockedProbe = 1500 * time.Millisecond
 
 func execPool(f []string) (string, string) {
-	size := hx.Atoi(f[1])
-	steps := hx.SplitList(f[2])
 	st := &store{data: map[string]int{}, saved: make(chan struct{}, 1)}
+	return runPool[param](hx.Atoi(f[1]), hx.SplitList(f[2]), st)
+}
+
+func runPool[T any](size int, steps []string, st backend[T]) (string, string) {
 	in := newInstance(st, size)
 	defer func() { in.sched.VerifC39Stop() }()
 	if !waitCh(in.ready, long) {
@@ -215,11 +262,9 @@ func execPool(f []string) (string, string) {
 	tags := map[string]bool{}
 	restart := func(readFail bool) bool {
 		in.sched.VerifC39Stop()
-		st.mu.Lock()
-		st.readFail = readFail
-		st.crashed = false
-		st.saveMode, st.delMode = "", ""
-		st.mu.Unlock()
+		st.ResetFaults()
+		st.BeforeRestart()
+		st.SetReadFail(readFail)
 		in = newInstance(st, size)
 		pending = false
 		return waitCh(in.ready, long)
@@ -228,7 +273,7 @@ func execPool(f []string) (string, string) {
 	for _, s := range steps {
 		out := ""
 		switch s {
-		case "g", "gf", "gw", "gn", "gc":
+		case "g", "gf", "gw", "gn", "gc", "gt":
 			if pending {
 				out = "b"
 				tags["busy"] = true
@@ -242,26 +287,29 @@ func execPool(f []string) (string, string) {
 				out = "n"
 				break
 			}
-			st.mu.Lock()
 			switch s {
 			case "gf":
-				st.saveMode = "fail"
+				st.SetSave("fail")
 			case "gw":
-				st.saveMode = "failwrote"
+				st.SetSave("failwrote")
+			case "gt":
+				st.SetSave("crashtorn")
 			}
-			st.mu.Unlock()
 			full := in.pool.ParametersCount() >= size
 			in.cmd <- genCmd{v: next}
 			next++
-			if !waitCh(st.saved, long) {
+			if !waitCh(st.Saved(), long) {
 				return "STUCK save", "stuck"
 			}
-			if s == "gc" {
+			if s == "gc" || s == "gt" {
 				if !restart(false) {
 					return "STUCK restart", "stuck"
 				}
 				out = "c"
 				tags["crash"] = true
+				if s == "gt" {
+					tags["torn"] = true
+				}
 				break
 			}
 			failed := s == "gf" || s == "gw"
@@ -290,17 +338,15 @@ func execPool(f []string) (string, string) {
 				tags["blocked"] = true
 			}
 		case "t", "tf", "tb", "ta":
-			st.mu.Lock()
 			switch s {
 			case "tf":
-				st.delMode = "fail"
+				st.SetDel("fail")
 			case "tb":
-				st.delMode = "crashbefore"
+				st.SetDel("crashbefore")
 			case "ta":
-				st.delMode = "crashafter"
+				st.SetDel("crashafter")
 			}
-			st.mu.Unlock()
-			var v *param
+			var v *T
 			var err error
 			func() {
 				defer func() {
@@ -313,10 +359,8 @@ func execPool(f []string) (string, string) {
 				}()
 				v, err = in.pool.GetNow()
 			}()
-			st.mu.Lock()
-			st.delMode = ""
-			crashed := st.crashed
-			st.mu.Unlock()
+			st.SetDel("")
+			crashed := st.Crashed()
 			switch {
 			case panicked:
 				out = "PANIC"
@@ -334,8 +378,9 @@ func execPool(f []string) (string, string) {
 				out = "d"
 				tags["delfail"] = true
 			default:
-				out = fmt.Sprintf("v%d", v.V)
-				if st.has(fmt.Sprintf("id%d", v.V)) {
+				val := st.Val(v)
+				out = "v" + val
+				if id, err := strconv.Atoi(strings.TrimSuffix(val, "?")); err == nil && st.Has(id) {
 					out += "!"
 				}
 				tags["served"] = true
@@ -364,15 +409,10 @@ func execPool(f []string) (string, string) {
 		}
 		counts = append(counts, in.pool.ParametersCount())
 	}
-	st.mu.Lock()
-	var disk []int
-	for _, id := range st.files {
-		disk = append(disk, st.data[id])
-	}
-	st.mu.Unlock()
+	disk := st.Disk()
 	obs := "outs=" + hx.JoinStrs(outs) + " counts=" + hx.JoinInts(counts) + " disk=" + hx.JoinInts(disk)
 	var ts []string
-	for _, t := range []string{"served", "savefail", "delfail", "crash", "restart", "readfail", "blocked", "busy", "empty", "panic"} {
+	for _, t := range []string{"served", "savefail", "delfail", "crash", "torn", "restart", "readfail", "blocked", "busy", "empty", "panic"} {
 		if tags[t] {
 			ts = append(ts, t)
 		}
@@ -388,6 +428,8 @@ func exec(op string) (string, string) {
 	switch {
 	case len(f) == 3 && f[0] == "pool":
 		return execPool(f)
+	case len(f) == 4 && f[0] == "ppool":
+		return execPPool(f)
 	}
 	return "bad-op", "bad"
 }
@@ -397,6 +439,10 @@ var stepKinds = []string{"g", "g", "g", "g", "gf", "gf", "gw", "gn", "gc", "t", 
 func gen(r *hx.Rng, n int, tier string) []string {
 	var ops []string
 	for i := 0; i < n; i++ {
+		if i%4 == 3 {
+			ops = append(ops, genPPool(r))
+			continue
+		}
 		size := r.Range(1, 4)
 		if r.Chance(1, 12) {
 			size = 0
@@ -460,13 +506,50 @@ func returnsOnSaveError() bool {
 	return found
 }
 
+// loadRejectsIncompleteFiles: in pkg/tecdsa/dkg/preparams.go the condition that guards the
+// "failed validation" branch of ReadAll is `!…ValidateWithProof() || <something more>`.
+func loadRejectsIncompleteFiles() bool {
+	repo := os.Getenv("VERIF_REPO")
+	if repo == "" {
+		repo = "/repo"
+	}
+	fset := token.NewFileSet()
+	file, err := parser.ParseFile(fset, filepath.Join(repo, "pkg/tecdsa/dkg/preparams.go"), nil, 0)
+	if err != nil {
+		return false
+	}
+	mentions := func(e ast.Expr) bool {
+		hit := false
+		ast.Inspect(e, func(n ast.Node) bool {
+			if id, ok := n.(*ast.Ident); ok && id.Name == "ValidateWithProof" {
+				hit = true
+			}
+			return true
+		})
+		return hit
+	}
+	found := false
+	ast.Inspect(file, func(n ast.Node) bool {
+		if ifs, ok := n.(*ast.IfStmt); ok {
+			if be, ok := ifs.Cond.(*ast.BinaryExpr); ok && be.Op == token.LOR && mentions(be.X) && !mentions(be.Y) {
+				found = true
+			}
+		}
+		return true
+	})
+	return found
+}
+
 func main() {
 	hx.Main(&hx.Config{
 		Prop: "C39",
 		Gen:  gen,
 		Exec: exec,
 		Facts: func() []string {
-			return []string{fmt.Sprintf("bool returnsOnSaveError %v", returnsOnSaveError())}
+			return []string{
+				fmt.Sprintf("bool returnsOnSaveError %v", returnsOnSaveError()),
+				fmt.Sprintf("bool loadRejectsIncompleteFiles %v", loadRejectsIncompleteFiles()),
+			}
 		},
 		PerOpTimeout: 60 * time.Second,
 	})
